@@ -871,15 +871,43 @@ def _cfg_text(types, group):
     return text
 
 
-def _cause(case, events, line):
-    """what kind of outcome preceded an L1 failure (for the signature)"""
-    kinds = set()
-    chunks = 0
-    for ev in events[:line]:
-        if ev["ev"] == "BulkReq":
-            kinds.add(ev["o"]["k"])
-            chunks += 1
-    return sorted(kinds - {"ok"})
+def _cause(clause, events, line):
+    """the kind of input that makes an L1 clause fail at event `line` (1-based), for the signature"""
+    ev = events[line - 1]
+    if ev["ev"] == "Put":
+        a = ev["a"]
+        before = events[line - 2]["st"]["store"][ev["s"]] if line >= 2 else None
+        scope = {}
+        if before is not None and a["lvl"] in ("cluster", "node"):
+            scope = {k: v for k, v in before["cl"].items() if v}
+            if a["lvl"] == "node":
+                scope.update({k: v for k, v in before["nd"].get(a["node"], {}).items() if v})
+        return "%s level=%s scope-meta-info=%s meta_data=%s%s" % (
+            "put_value" if a["kind"] == "value" else "put_doc",
+            a["lvl"],
+            "some" if scope else "empty",
+            "given" if any(a["md"].values()) else "none",
+            " time=" + a["tm"] if clause == "Times" else "",
+        )
+    if clause == "AtMostOnce":
+        now = ev["st"]["idx"]
+        before = events[line - 2]["st"]["idx"] if line >= 2 else []
+        dups = sorted(d for d in set(now) if now.count(d) > 1 and now.count(d) > before.count(d))
+        if not dups:
+            return "?"
+        first = next(j for j, e in enumerate(events) if dups[0] in e["st"]["idx"])
+        same_call = not any(e["ev"] in ("Flush", "Close") for e in events[first + 1 : line])
+        again = "the retry of the whole batch" if same_call else "the next flush (the flush raised and kept the whole buffer)"
+        k = events[first]["o"]["k"] if events[first]["ev"] == "BulkReq" else "?"
+        if k == "ok":
+            later = next((e["o"]["k"] for e in events[first + 1 : line] if e["ev"] == "BulkReq" and e["o"]["k"] != "ok"), "?")
+            return "a chunk was accepted, a later chunk of the batch failed (%s); re-sent by %s" % (later, again)
+        return "%s: the accepted documents are re-sent by %s" % ({"itemT": "items rejected with 429/503", "itemF": "items failed with 400/409", "reqTdone": "timeout after the request was processed"}.get(k, k), again)
+    if clause in ("NoLoss", "EsNoLoss") and ev["ev"] in ("BulkReq", "RefreshReq", "Flush", "Close"):
+        o = ev["o"]["k"] if ev["ev"] == "BulkReq" else ev.get("o", "")
+        return "records are neither buffered nor indexed after a flush/close that %s%s" % (ev["st"]["last"]["k"], " on " + o if o else "")
+    kinds = {e["o"]["k"] for e in events[:line] if e["ev"] == "BulkReq"} - {"ok"}
+    return "%s; faults so far: %s" % (ev["ev"], ",".join(sorted(kinds)) or "none")
 
 
 def run_cases(cases, out, label):
@@ -906,14 +934,14 @@ def run_cases(cases, out, label):
             _tid, case, item, _ = index[tid]
             for line, clauses in fails:
                 for clause in clauses:
-                    cause = _cause(case, item["events"], line)
+                    cause = _cause(clause, item["events"], line)
                     ev = item["events"][line - 1]
                     out.violations.append(
                         Violation(
                             clause,
                             case,
                             signature={"clause": clause, "cause": cause, "types": case["types"], "multi_chunk": case.get("group", 1) > 1},
-                            detail="trace %s event %d (%s%s): %s fails; faults so far: %s" % (tid, line, ev["ev"], " " + ev["o"]["k"] if ev["ev"] == "BulkReq" else "", clause, cause or "none"),
+                            detail="trace %s event %d (%s%s): %s fails; %s" % (tid, line, ev["ev"], " " + ev["o"]["k"] if ev["ev"] == "BulkReq" else "", clause, cause),
                         )
                     )
         for tid, lines in verdicts.l2.items():
@@ -971,32 +999,32 @@ def run(ctx, out):
     # ---- Leg S2C + C2S
     sims = []
     for types, off in (("memes", 11), ("eses", 12), ("memmem", 13)):
-        n = {"memes": 160, "eses": 90, "memmem": 50}[types] * (1 if quick else 12)
+        n = {"memes": 120, "eses": 60, "memmem": 30}[types] * (1 if quick else 12)
         cfg_text_types = {"memes": "EsStore.sim.cfg", "eses": "EsStore.simes.cfg", "memmem": "EsStore.simmem.cfg"}[types]
         sims += behaviours_from_tlc(ctx, out, cfg_text_types, n, 60, types, 1, off)
     out.note("leg S2C: %d TLC behaviours (single chunk)" % len(sims))
     items = run_cases(sims, out, "sim")
     pick = next((c for c in sims if any(o["op"] in ("Flush", "Close") and len(o["script"]) >= 2 for o in c["ops"])), sims[0])
     out.sample({"source": pick["src"], "types": pick["types"], "ops": pick["ops"][:14]})
-    chunked = behaviours_from_tlc(ctx, out, "EsStore.simchunk.cfg", 14 if quick else 150, 40, "eses", GROUP, 14)
+    chunked = behaviours_from_tlc(ctx, out, "EsStore.simchunk.cfg", 10 if quick else 150, 40, "eses", GROUP, 14)
     out.note("leg S2C: %d TLC behaviours (multi-chunk, one record = %d documents)" % (len(chunked), GROUP))
     run_cases(chunked, out, "simchunk")
-    rnd = random_cases(ctx.seed + 1, 250 if quick else 4000)
+    rnd = random_cases(ctx.seed + 1, 200 if quick else 4000)
     run_cases(rnd, out, "rnd")
     out.sample({"source": "random", "types": rnd[0]["types"], "ops": rnd[0]["ops"][:10]})
-    rndc = random_cases(ctx.seed + 2, 8 if quick else 80, group=GROUP, max_ops=16)
+    rndc = random_cases(ctx.seed + 2, 5 if quick else 80, group=GROUP, max_ops=16)
     run_cases(rndc, out, "rndchunk")
     out.note("leg C2S: %d executions validated by TLC, %d L1 findings, %d drift" % (out.traces_validated, len(out.violations), len(out.drift)))
     # one line per kind of finding
     kinds = {}
     for v in out.violations:
-        key = (v.clause, tuple(v.signature["cause"]), v.signature["multi_chunk"])
+        key = (v.clause, v.signature["cause"], v.signature["multi_chunk"])
         kinds.setdefault(key, []).append(v)
-    out.extra["l1_findings_by_kind"] = {"%s after %s%s" % (k[0], list(k[1]) or "no fault", " (multi-chunk)" if k[2] else ""): len(v) for k, v in sorted(kinds.items())}
+    out.extra["l1_findings_by_kind"] = {"%s: %s%s" % (k[0], k[1], " (multi-chunk)" if k[2] else ""): len(v) for k, v in sorted(kinds.items())}
     out.violations.sort(key=lambda v: (v.clause, len(v.case["ops"]), repr(v.case)))
     for k, vs in sorted(kinds.items()):
         smallest = min(vs, key=lambda v: len(v.case["ops"]))
-        out.note("L1 %s after %s%s: %d executions, smallest has %d calls" % (k[0], list(k[1]) or "no fault", " (multi-chunk)" if k[2] else "", len(vs), len(smallest.case["ops"])))
+        out.note("L1 %s: %s%s: %d executions, smallest has %d calls" % (k[0], k[1], " (multi-chunk)" if k[2] else "", len(vs), len(smallest.case["ops"])))
 
 
 def replay(ctx, case):
